@@ -619,6 +619,9 @@ func gen(repo string) (map[string]string, error) {
 	b.WriteString("def releaseDefaultsToSts : Bool := " + fg.LeanBool(rel) + "\n")
 	b.WriteString("/-- ReleaseIPs: arguments of `util.NewKeyObj(...)` (entry fields, `temp.` stripped) -/\n")
 	b.WriteString("def releaseKeyArgs : List String := " + strList(relArgs) + "\n")
+	b.WriteString("/-- ReleaseIPs / ListIPs: the expressions handed to util.GetAppTypePrefix inside the handler (exactly one each:\n    the entry's / query's app type itself, with no normalisation in between); [] when the handler does not call it directly -/\n")
+	b.WriteString("def releasePrefixArgs : List String := " + strList(prefixArgs(ap, "ReleaseIPs")) + "\n")
+	b.WriteString("def listPrefixArgs : List String := " + strList(prefixArgs(ap, "ListIPs")) + "\n")
 	b.WriteString("/-- ListIPs (query without keyword): same default -/\n")
 	b.WriteString("def listDefaultsToSts : Bool := " + fg.LeanBool(lst) + "\n")
 	b.WriteString("def listKeyArgs : List String := " + strList(lstArgs) + "\n\n")
@@ -1068,4 +1071,34 @@ func releaseLoopsShape(p *fg.Parsed) error {
 		}
 	}
 	return nil
+}
+
+// prefixArgs lists the printed arguments of every util.GetAppTypePrefix(...) call in handler fn, and, for every other
+// call whose result is assigned to appTypePrefix, "<callee>(<args>)" — so a helper or a normalising wrapper shows up.
+func prefixArgs(p *fg.Parsed, fn string) []string {
+	fd, err := p.Fn("Controller", fn)
+	if err != nil {
+		return nil
+	}
+	var out []string
+	ast.Inspect(fd.Body, func(n ast.Node) bool {
+		switch x := n.(type) {
+		case *ast.CallExpr:
+			if p.Src(x.Fun) == "util.GetAppTypePrefix" {
+				var a []string
+				for _, e := range x.Args {
+					a = append(a, norm(p.Src(e)))
+				}
+				out = append(out, strings.Join(a, ", "))
+			}
+		case *ast.AssignStmt:
+			if len(x.Lhs) >= 1 && p.Src(x.Lhs[0]) == "appTypePrefix" && len(x.Rhs) == 1 {
+				if c, ok := x.Rhs[0].(*ast.CallExpr); ok && p.Src(c.Fun) != "util.GetAppTypePrefix" {
+					out = append(out, norm(p.Src(c)))
+				}
+			}
+		}
+		return true
+	})
+	return out
 }
